@@ -186,6 +186,36 @@ def flags(repo):
     # p21read exit rule
     if len(re.findall(r"severity\(\)\s*<=\s*SEVERITY_INCOMPLETE", pr)) < 2 or not re.search(r"readSev\s*<=\s*SEVERITY_INCOMPLETE", pr):
         raise ValueError("p21read: exit rule changed")
+    # ---- literal level switches (owned by C09's extractor p21lex; re-derived here with coarser patterns so that
+    #      this table does not depend on another extractor's exact shapes)
+    rf = rd("src/clstepcore/read_func.cc")
+    en = rd("src/cldai/sdaiEnum.cc")
+    bi = rd("src/cldai/sdaiBinary.cc")
+    sa = rd("src/clstepcore/STEPattribute.cc")
+    ri = _strip(_body(rf, r"int\s+ReadInteger\(\s*SDAI_Integer\s*&\s*val,\s*istream\s*&\s*in,[^)]*\)\s*\{", "ReadInteger"))
+    rr_ = _strip(_body(rf, r"int\s+ReadReal\(\s*SDAI_Real\s*&\s*val,\s*istream\s*&\s*in,[^)]*\)\s*\{", "ReadReal"))
+    rn = _strip(_body(rf, r"int\s+ReadNumber\(\s*SDAI_Real\s*&\s*val,\s*istream\s*&\s*in,[^)]*\)\s*\{", "ReadNumber"))
+    rep = lambda body: bool(re.search(r"err->GreaterSeverity\(\s*SEVERITY_WARNING\s*\)", body))
+    out["intReportsFail"], out["realReportsFail"], out["numberReportsFail"] = rep(ri), rep(rr_), rep(rn)
+    for body, what in [(ri, "ReadInteger"), (rr_, "ReadReal"), (rn, "ReadNumber")]:
+        if not re.search(r"CheckRemainingInput\(\s*in,\s*err,", body):
+            raise ValueError(f"{what}: no CheckRemainingInput")
+    m = re.search(r"char\s+buf\s*\[\s*(\d+)\s*\]\s*;", rr_)
+    if m:
+        out["realBuf"] = int(m.group(1))
+    elif re.search(r"std::string\s+buf\s*;", rr_):
+        out["realBuf"] = 10 ** 18        # collected in a std::string: no fixed capacity
+    else:
+        raise ValueError("ReadReal: lexeme buffer declaration not found")
+    lg = _strip(_body(en, r"Severity\s+SDAI_LOGICAL::ReadEnum\(", "SDAI_LOGICAL::ReadEnum"))
+    out["logicalRejectsUnset"] = bool(re.search(r"LUnset\s*==\s*i", lg))
+    rb_ = _strip(_body(bi, r"Severity\s+SDAI_Binary::ReadBinary\(", "SDAI_Binary::ReadBinary"))
+    out["binaryRejectsEmpty"] = bool(re.search(r"str\.length\(\)\s*==\s*0", rb_))
+    sr = _strip(_body(sa, r"Severity\s+STEPattribute::STEPread\(\s*istream", "STEPattribute::STEPread"))
+    m = re.search(r"if\(\s*Nullable\(\)\s*\)\s*\{(.*?)\}\s*else\s+if\(\s*!strict\s*\)", sr, re.S)
+    if not m:
+        raise ValueError("STEPattribute::STEPread: `$` branch changed")
+    out["dollarKeepsError"] = not re.search(r"_error\.severity\(\s*SEVERITY_NULL\s*\)", m.group(1))
     return out
 
 
@@ -201,6 +231,13 @@ def rwCfg : StepModel.P21.RWCfg :=
     aggrSkipsComments := {_b(f['aggrSkipsComments'])}, complexMergesParts := {_b(f['complexMergesParts'])},
     complexPartStrict := {f['complexPartStrict']}, recoveryKeepsSemicolon := {_b(f['recoveryKeepsSemicolon'])},
     complexReportsError := {_b(f['complexReportsError'])} }}
+
+/-- the literal-level switches, re-derived by this extractor (C09's `Generated.lexCfg` is the primary tie for them) -/
+def rwLexCfg : StepModel.P21.LexCfg :=
+  {{ intReportsFail := {_b(f['intReportsFail'])}, realReportsFail := {_b(f['realReportsFail'])},
+    numberReportsFail := {_b(f['numberReportsFail'])}, logicalRejectsUnset := {_b(f['logicalRejectsUnset'])},
+    binaryRejectsEmpty := {_b(f['binaryRejectsEmpty'])}, dollarKeepsError := {_b(f['dollarKeepsError'])},
+    asStrUsesWriteReal := false, realBuf := {f['realBuf']}, realPrecision := 15 }}
 
 end StepModel.Generated
 """
